@@ -60,7 +60,7 @@ def table_case(draw):
         for i in range(k):
             parts.append(word())
             if i < k - 1:
-                parts.append(draw(st.sampled_from([" ", " ", " ", "  ", "\n"])))
+                parts.append(draw(st.sampled_from([" ", " ", " ", "  ", "\n", "\u3000"])))  # U+3000: white space that is two cells wide
         return "".join(parts)
 
     ncols = draw(st.integers(1, 6))
@@ -71,10 +71,19 @@ def table_case(draw):
             "header": text(2), "footer": text(2), "justify": draw(st.sampled_from(GT.JUSTIFY)), "overflow": draw(st.sampled_from(["fold", "fold", "fold", "crop", "ellipsis"])),
             "ratio": draw(st.one_of(st.none(), st.none(), st.integers(1, 4))), "max_width": draw(st.one_of(st.none(), st.none(), st.none(), st.integers(2, 12))),  # a cap below one double-width character could not show it
         })
+    # the last `implicit` columns are never declared: a row with more cells than there are columns creates them (earlier, shorter rows get blank cells)
+    implicit = min(ncols, draw(st.sampled_from([0, 0, 0, 1, 2, 3]))) if nrows else 0
+    for c in cols[ncols - implicit:] if implicit else []:
+        c.update({"header": "", "footer": "", "justify": "left", "overflow": "ellipsis", "ratio": None, "max_width": None})
+    full_row = draw(st.integers(0, nrows - 1)) if implicit else None   # this row certainly carries all its cells
     rows = []
-    for _ in range(nrows):
+    for ri in range(nrows):
         cells = []
-        for _ in range(ncols):
+        short = bool(implicit) and ri != full_row and draw(st.booleans())
+        for ci in range(ncols):
+            if short and ci >= ncols - implicit:
+                cells.append({"k": "text", "s": "", "justify": None, "overflow": None, "no_wrap": None})
+                continue
             t = {"k": "text", "s": text(4), "justify": None, "overflow": None, "no_wrap": None}
             kind = draw(st.integers(0, 11))
             if kind == 0:
@@ -91,9 +100,9 @@ def table_case(draw):
                      "box": draw(st.sampled_from([None, "SQUARE", "ASCII"])), "show_header": False, "show_footer": False, "show_edge": draw(st.booleans()), "show_lines": False, "leading": 0,
                      "padding": [0, draw(st.integers(0, 1))], "pad_edge": False, "collapse_padding": False, "expand": False, "title": None, "caption": None}
             cells.append(t)
-        rows.append({"cells": cells, "end_section": draw(st.sampled_from([False, False, False, True])), "style": draw(st.sampled_from([None, None, "on blue"]))})
+        rows.append({"cells": cells, "end_section": draw(st.sampled_from([False, False, False, True])), "style": draw(st.sampled_from([None, None, "on blue"])), "short": short})
     node = {
-        "k": "table", "cols": cols, "rows": rows,
+        "k": "table", "cols": cols, "rows": rows, "implicit": implicit,
         "box": draw(st.one_of(st.none(), st.sampled_from(GT.BOXES), st.sampled_from(GT.BOXES))),
         "show_header": draw(st.booleans()), "show_footer": draw(st.booleans()), "show_edge": draw(st.booleans()), "show_lines": draw(st.booleans()),
         "leading": draw(st.sampled_from([0, 0, 0, 1, 2, 3])), "padding": draw(GT.pad_strategy()), "pad_edge": draw(st.booleans()),
@@ -124,10 +133,13 @@ def build_table(n, W, smin, annotations=True):
         expand=n["expand"], title=Text(n["title"]) if (n["title"] and annotations) else None, caption=Text(n["caption"]) if (n["caption"] and annotations) else None,
         width=width, min_width=min_width, row_styles=n["row_styles"], title_justify=n["title_justify"],
     )
-    for c in n["cols"]:
+    implicit = n.get("implicit", 0)
+    declared = len(n["cols"]) - implicit
+    for c in n["cols"][:declared]:
         t.add_column(Text(c["header"]), Text(c["footer"]), justify=c["justify"], overflow=c["overflow"], ratio=c["ratio"], max_width=c["max_width"])
     for r in n["rows"]:
-        t.add_row(*[GT.build(c) for c in r["cells"]], end_section=r["end_section"], style=r["style"])
+        cells = r["cells"][:declared] if r.get("short") else r["cells"]
+        t.add_row(*[GT.build(c) for c in cells], end_section=r["end_section"], style=r["style"])
     return t, width, min_width
 
 
